@@ -76,7 +76,7 @@ def closed_state(world, tips):
 
 TOPOLOGIES = {
     2: {"one-way": [(0, 1)], "one-way-reverse": [(1, 0)], "two-way": [(0, 1), (1, 0)]},
-    3: {"line": [(0, 1), (1, 2)], "line-reverse": [(2, 1), (1, 0)], "star": [(0, 1), (0, 2)], "star-in": [(1, 0), (2, 0)],
+    3: {"line": [(0, 1), (1, 2)], "line-reverse": [(2, 1), (1, 0)], "star": [(0, 1), (0, 2)], "star-in": [(1, 0), (2, 0)], "both-into-middle": [(0, 1), (2, 1)],
         "triangle": [(0, 1), (1, 2), (2, 0)], "full": [(0, 1), (1, 0), (1, 2), (2, 1), (0, 2), (2, 0)]},
 }
 
@@ -112,7 +112,7 @@ def make_forest(rng, trunk, forks, tx_prob=0.3):
 
 
 class Run:
-    def __init__(self, mon, world, tips_per_node, edges, rng, batch, schedule, w, same_host=False):
+    def __init__(self, mon, world, tips_per_node, edges, rng, batch, schedule, w, same_host=False, skew=None, unreachable=()):
         import skepticoin.networking.remote_peer as rp
         self.mon, self.world, self.rng, self.w = mon, world, rng, w
         rp.GET_BLOCKS_INVENTORY_SIZE = batch
@@ -131,6 +131,15 @@ class Run:
             self.nodes.append(node)
             self.keep.append(keep)
             self.wrap(node)
+        for i in unreachable:           # (a node behind NAT: it connects out, nobody can connect to it)
+            self.net.refuse.add(self.nodes[i].addr)
+        # honest nodes' clocks differ (nothing in the protocol synchronises them): in a third of the runs every node reads the
+        # virtual time plus its own offset -- seconds to hours, fast or slow
+        if skew is not None or rng.random() < 0.35:
+            for i, node in enumerate(self.nodes):
+                self.net.clock.skew[node.name] = skew[i] if skew is not None else rng.choice([0, 0, 25, -25, 3600, -3600, 7200, 6 * 3600])
+            w["clock_offsets"] = dict(self.net.clock.skew)
+            mon.c["runs_with_differing_clocks"] = mon.c.get("runs_with_differing_clocks", 0) + 1
         for (a, b) in edges:
             na, nb = self.nodes[a], self.nodes[b]
             key = (nb.addr[0], nb.addr[1], "OUTGOING")
@@ -290,7 +299,13 @@ class Run:
         if early is not None:
             t0, tall = early
             led = world.ledger(head)
-            if not (ref.tx_codes_by_itself(t0) | ref.tx_codes_in_ledger(t0, led)) and tall.lp.network_manager.get_active_peers():
+            holders = [n for n in self.nodes if n is not tall and t0.id() in [x.hash() for x in n.lp.chain_manager.get_state()[1]]]
+            if holders:
+                # [domain] a node in between had already caught up when the early broadcast arrived: it took the transaction and
+                # relayed it then (to neighbours that refused it).  "Relays a given transaction at most once" forbids it to relay
+                # the second broadcast, so nothing is expected of the nodes behind it
+                c["early_transactions_already_held_by_a_node_in_between"] = c.get("early_transactions_already_held_by_a_node_in_between", 0) + 1
+            elif not (ref.tx_codes_by_itself(t0) | ref.tx_codes_in_ledger(t0, led)) and tall.lp.network_manager.get_active_peers():
                 # still valid at the head all nodes share now: broadcast it again -- whoever refused it earlier must take it now
                 nb = len(self.relays)
                 tall.lp.network_manager.broadcast_transaction(bridge.rtx_to_real(t0))
@@ -392,16 +407,35 @@ def scenario(rng, quick, lane):
     return world, per_node, {"kind": kind, "trunk": trunk, "forks": forks, "nodes": nnodes}
 
 
-def one_run(mon, rng, world, per_node, desc, batch, quick):
+def late_learner(mon, rng, quick):
+    """a line A - B - C: A and B share a head, C is ahead.  A asks B first and hears "nothing new"; B learns the longer chain from C
+    only afterwards (blocks fetched by polling are not relayed), so A gets it only by asking B AGAIN.  B's clock may be hours off"""
+    trunk, ahead = rng.choice([1, 3, 8]), rng.randint(2, 12)
+    world, tips = make_forest(rng, trunk, [ahead])
+    base = world.chain.ancestors(tips[0])[max(1, trunk)] if trunk else world.gid
+    per_node = [[base], [base], [tips[0]]]
+    desc = {"kind": "late-learner", "trunk": trunk, "forks": [ahead], "nodes": 3}
+    skew = [0, rng.choice([0, 25, 3 * 3600, 6 * 3600, 6 * 3600, -3600]), rng.choice([0, 0, 3600])]
+    mon.c["late_learner_runs"] = mon.c.get("late_learner_runs", 0) + 1
+    # (A and C may be reachable only through B: both behind NAT, connecting out to B)
+    nat = rng.random() < 0.6
+    one_run(mon, rng, world, per_node, desc, rng.choice([2, 5, 500]), quick, topo="both-into-middle" if nat else rng.choice(["line", "line-reverse"]),
+            skew=skew, unreachable=(0, 2) if nat else ())
+
+
+def one_run(mon, rng, world, per_node, desc, batch, quick, topo=None, skew=None, unreachable=()):
     nn = len(per_node)
-    topo = rng.choice(sorted(TOPOLOGIES[nn]))
+    topo = topo or rng.choice(sorted(TOPOLOGIES[nn]))
     schedule = rng.choice(["uniform", "timers-first", "starve-one-node", "io-first"])
     w = {"desc": desc, "topology": topo, "schedule": schedule, "batch": batch,
          "blocks": gen.blocks_hex(world, world.chain.order[1:]),
          "tips_per_node": [[t.hex() for t in tips] for tips in per_node]}
     same_host = rng.random() < 0.35
     w["same_host"] = same_host
-    run = Run(mon, world, per_node, TOPOLOGIES[nn][topo], rng, batch, schedule, w, same_host=same_host)
+    if unreachable:
+        w["unreachable_nodes"] = list(unreachable)
+        same_host = w["same_host"] = False
+    run = Run(mon, world, per_node, TOPOLOGIES[nn][topo], rng, batch, schedule, w, same_host=same_host, skew=skew, unreachable=unreachable)
     c = mon.c
     c["runs"] += 1
     if same_host:
@@ -533,8 +567,10 @@ def run_shard(spec):
         for k in range(20):          # the schedule is re-sampled: 20 schedules on the recorded scenario
             nn = len(per_node)
             r2 = random.Random(k)
+            offs = w.get("clock_offsets")
             run = Run(mon, world, per_node, TOPOLOGIES[nn][w["topology"]], r2, w["batch"], w["schedule"], w,
-                      same_host=w.get("same_host", False))
+                      same_host=w.get("same_host", False), skew=[offs.get("n%d" % i, 0) for i in range(nn)] if offs else None,
+                      unreachable=tuple(w.get("unreachable_nodes", ())))
             run.phase1(200)
             rounds = run.drain(len(w["blocks"]))
             if run.verdict_sync(rounds):
@@ -559,6 +595,8 @@ def run_shard(spec):
                     pn = list(per_node)
                     rng.shuffle(pn)
                     one_run(mon, rng, world, pn, desc, batch, quick)
+            for j in range(3 if quick else 40):
+                late_learner(mon, rng, quick)
             systematic(mon, rng, 4 if quick else 6, spec["shard"], NSHARD)
             if spec["shard"] % 4 == 0:
                 big_block_runs(mon, rng, 1 if quick else 6, quick)
